@@ -1158,8 +1158,30 @@ func configOrigins(v ssa.Value, cfgStruct string, seen map[ssa.Value]bool, out m
 			configOrigins(e, cfgStruct, seen, out, d+1)
 		}
 	case *ssa.Extract:
+		// a result of a Helios helper that is handed the configuration section whole
+		// (`max, refill := rateLimiterParams(cfg.RateLimit)`): what the helper returns in that position
+		if call, ok := x.Tuple.(*ssa.Call); ok {
+			if g := call.Call.StaticCallee(); g != nil && g.Blocks != nil && g.Pkg != nil && strings.Contains(g.Pkg.Pkg.Path(), "0xReLogic/Helios") {
+				for _, b := range g.Blocks {
+					for _, in := range b.Instrs {
+						if r, isRet := in.(*ssa.Return); isRet && x.Index < len(r.Results) {
+							configOrigins(r.Results[x.Index], cfgStruct, seen, out, d+1)
+						}
+					}
+				}
+			}
+		}
 		configOrigins(x.Tuple, cfgStruct, seen, out, d+1)
 	case *ssa.Call:
+		if g := x.Call.StaticCallee(); g != nil && g.Blocks != nil && g.Pkg != nil && strings.Contains(g.Pkg.Pkg.Path(), "0xReLogic/Helios") && g.Signature.Results().Len() == 1 {
+			for _, b := range g.Blocks {
+				for _, in := range b.Instrs {
+					if r, isRet := in.(*ssa.Return); isRet && len(r.Results) == 1 {
+						configOrigins(r.Results[0], cfgStruct, seen, out, d+1)
+					}
+				}
+			}
+		}
 		for _, a := range x.Call.Args {
 			configOrigins(a, cfgStruct, seen, out, d+1)
 		}
